@@ -325,7 +325,14 @@ def r7_envelope_is_fresh(ctx):
     R.floor("C04.R7", n, 2, "notification envelope builders")
 
 
-RULES = [r1_typestate, r2_closed_check_first, r3_identity, r4_close_gating, r5_unsubscribe_key, r6_single_writer, r7_envelope_is_fresh]
+def r8_sibling_registrars(ctx):
+    """register_subscription and register_subscription_raw give the sink the same names (C13.R6)"""
+    from .common import sibling_param_agreement
+    M = r"^jsonrpsee_core::server::rpc_module::RpcModule::<Context>::%s$"
+    sibling_param_agreement(ctx, "C04.R8", (("register_subscription", M % "register_subscription"), ("register_subscription_raw", M % "register_subscription_raw")), 3)
+
+
+RULES = [r1_typestate, r2_closed_check_first, r3_identity, r4_close_gating, r5_unsubscribe_key, r6_single_writer, r7_envelope_is_fresh, r8_sibling_registrars]
 
 LEVEL_TEXT = (
     "Structural necessary conditions of the subscription notification contract decided from the type-checked program: "
